@@ -1,5 +1,30 @@
 use crate::engine::Ctx;
 
+pub mod c01;
+pub mod c04;
+pub mod c05;
+pub mod c08;
+pub mod c08_offer;
+pub mod c09;
+pub mod c12;
+pub mod c15;
+pub mod c15_rtcp;
+pub mod c16;
 pub mod c18;
+pub mod c19;
+pub mod c20;
+pub mod sctp_common;
 
-pub const TABLE: &[(&str, fn(&mut Ctx))] = &[("C18", c18::run)];
+pub const TABLE: &[(&str, fn(&mut Ctx))] = &[
+    ("C01", c01::run),
+    ("C04", c04::run),
+    ("C05", c05::run),
+    ("C08", c08::run),
+    ("C09", c09::run),
+    ("C12", c12::run),
+    ("C15", c15::run),
+    ("C16", c16::run),
+    ("C18", c18::run),
+    ("C19", c19::run),
+    ("C20", c20::run),
+];
